@@ -8,6 +8,8 @@ Regenerated on every run of the checks that use it (C07, C12) from the source fi
                              _match_node_element     -> GenK.match_node_element
                              _match_node_xpath       -> GenK.match_node_xpath   (structural recursion on `elements`)
   src/pyoak/node.py          ASTNode.get_property_fields (loop body)  -> GenK.get_property_fields_keep
+  src/pyoak/legacy/match/xpath.py   _match_node_xpath (LEGACY; C20, optional) -> GenK.LX.match_node_xpath  (class `LFn`, idiom
+                             table LEGACY_IDIOMS; abstract node primitives, fuel)
 
 The bridge theorems (Props/GenBridge.lean) prove the hand-written model functions equal to the generated ones, so the
 C07 / C12 property theorems are theorems about what the source says *now*: a semantic change of one of these functions
@@ -549,6 +551,297 @@ def generate_xpath(src: Path) -> str:
     out.append("/-- `_match_node_xpath` (src/pyoak/match/xpath.py): structural recursion on `elements` -/\n" + sig +
                f"  match {els} with\n  | [] => false\n  | {head} :: {tail} =>\n    {body}\n")
     out.append("end PyOak.GenK\n")
+    return "\n".join(out)
+
+
+# ------------------------------------------------------------------------------------------------ legacy xpath (C20, optional)
+
+# THE table of legacy-specific idioms (part of the trusted base; everything else goes through `Fn`).  A node of the legacy
+# module is an abstract value of type N; what `_match_node_xpath` reads of it are these primitives, which the bridge
+# (Props/GenBridgeLegacyXPath.lean) instantiates with the heap model's `LState.parent`, `LObj.pfield`, `LObj.pindex`,
+# `LObj.mro` and `Legacy.ancestors`.
+LEGACY_NODE_ATTRS = {               # `node.<attr>` on a node that is known not to be None
+    "parent": ("parent", ("opt", "N")),                   # AwareASTNode.parent         : AwareASTNode | None
+    "parent_field": ("parent_field", ("opt", "FieldR")),  # AwareASTNode.parent_field   : Field | None
+    "parent_index": ("parent_index", ("opt", "Int")),     # AwareASTNode.parent_index   : int | None
+}
+LEGACY_NODE_METHODS = {             # `node.<method>()`, no arguments
+    "ancestors": ("ancestors", ("list", "N")),            # list(node.ancestors()), nearest first
+}
+LEGACY_SENTINEL = "ASTXpathAnywhereElement"               # isinstance(x, <sentinel>)  ->  constructor test on LegacyEl
+LEGACY_TRUTHY_OPT = {"FieldR"}                            # `if x` / `x if .. else ..` on Optional[Field]: a Field is always truthy
+T_LEL = "(LegacyEl C)"                                    # ASTXpathElement | ASTXpathAnywhereElement
+LEGACY_IDIOMS = [
+    ("node: ASTNode | None", "Option N; `node is None` narrows (match .. | none | some ..); an attribute of a node that may be None: Unsupported"),
+    ("node.parent / node.parent_field / node.parent_index", "abstract primitives parent / parent_field / parent_index : N -> Option .."),
+    ("node.parent_field.name", "FieldR.name (on the un-narrowed Optional: Option.map, as in Fn)"),
+    ("X if node.parent_field else Y", "truthiness of Optional[Field] = isSome (dataclasses.Field defines neither __bool__ nor __len__)"),
+    ("for a in node.ancestors(): if P(a): return True", "(ancestors node).any P, ancestors : N -> List N (nearest first)"),
+    ("isinstance(x, ASTXpathAnywhereElement)", "constructor test on LegacyEl (the sentinel class must have an empty body); as an `if` test it narrows x to ASTXpathElement"),
+    ("isinstance(node, element.ast_class)", "abstract isinstance : N -> C -> Bool (as in Fn)"),
+    ("len(elements) == 0, elements[0], elements[1:], elements", "one case split `match elements with | [] | e :: t` at the top of the function; the body is translated once per case with the tests on the list decided (dead branches are not translated; `elements[0]` reachable on the empty list: Unsupported)"),
+    ("_match_node_xpath(a, es) (self call)", "call with one unit of fuel less; a plain node argument is wrapped in `some`; out of fuel = false"),
+]
+
+HEADER_LX = """/- GENERATED by harness/py2lean_k.py (`generate_legacy_xpath`) from `_match_node_xpath`, `ASTXpathElement` and
+   `ASTXpathAnywhereElement` of src/pyoak/legacy/match/xpath.py on every run of `./check C20`.
+   Do not edit: Props/GenBridgeLegacyXPath.lean proves the hand-written heap-level model `Legacy.lmatchH` equal to exactly this
+   definition (an OPTIONAL obligation, see harness/kernels_tie.py). -/
+import PyOak.Model.Core
+set_option linter.unusedVariables false
+namespace PyOak.GenK.LX
+open PyOak
+
+/-- `dataclasses.Field` as far as the legacy xpath matcher looks at it -/
+structure FieldR where
+  name : Str
+  deriving DecidableEq, Repr
+"""
+
+
+class LFn(Fn):
+    """`Fn` + the legacy idioms of LEGACY_IDIOMS; `mode` is the case of the list parameter (`nil` / `cons`)"""
+
+    def __init__(self, name, env, records, self_call, lst, mode, head, tl):
+        super().__init__(name, env, records, {"isinstance": ("isinstance", [], "Bool")}, {}, self_name=name)
+        self.self_call = self_call
+        self.lst, self.mode, self.head, self.tl = lst, mode, head, tl
+        self.env[lst] = ("list", T_LEL)
+        self.lean[lst] = f"({head} :: {tl})" if mode == "cons" else f"([] : List {T_LEL})"
+
+    def is_lst(self, e):
+        return isinstance(e, ast.Name) and e.id == self.lst
+
+    def is_len_lst(self, e):
+        return isinstance(e, ast.Call) and isinstance(e.func, ast.Name) and e.func.id == "len" and len(e.args) == 1 and self.is_lst(e.args[0])
+
+    def sentinel_test(self, e):
+        """-> the tested expression of `isinstance(<e>, ASTXpathAnywhereElement)`"""
+        if isinstance(e, ast.Call) and isinstance(e.func, ast.Name) and e.func.id == "isinstance" and len(e.args) == 2 \
+                and not e.keywords and isinstance(e.args[1], ast.Name) and e.args[1].id == LEGACY_SENTINEL:
+            return e.args[0]
+        return None
+
+    def expr(self, e):
+        if isinstance(e, ast.Subscript) and self.is_lst(e.value):
+            sl = e.slice
+            if isinstance(sl, ast.Constant) and sl.value == 0:
+                if self.mode == "nil":
+                    self.bad(e, "reachable when the list is empty (IndexError)")
+                return self.head, T_LEL
+            if isinstance(sl, ast.Slice) and isinstance(sl.lower, ast.Constant) and sl.lower.value == 1 and sl.upper is None and sl.step is None:
+                return (self.tl if self.mode == "cons" else f"([] : List {T_LEL})"), ("list", T_LEL)
+            self.bad(e, "subscript of the element list")
+        if isinstance(e, ast.Attribute):
+            base, bt = self.expr(e.value)
+            if bt == "N":
+                if e.attr not in LEGACY_NODE_ATTRS:
+                    self.bad(e, "node attribute outside LEGACY_NODE_ATTRS")
+                ln, ty = LEGACY_NODE_ATTRS[e.attr]
+                return f"({ln} {base})", ty
+            if bt == ("opt", "N"):
+                self.bad(e, "attribute of a node that may be None (AttributeError)")
+            if bt == T_LEL:
+                self.bad(e, "attribute of an element that may be the sentinel (not narrowed)")
+        if isinstance(e, ast.UnaryOp) and isinstance(e.op, ast.Not):
+            t, _ = self.boolean(e.operand)
+            return {"true": "false", "false": "true"}.get(t, f"(!{t})"), "Bool"
+        if isinstance(e, ast.IfExp):
+            c, _ = self.boolean(e.test)
+            a, ta = self.expr(e.body)
+            b, tb = self.expr(e.orelse)
+            ty = ta if not (isinstance(ta, tuple) and ta[0] == "opt" and ta[1] == "?") else tb
+            norm = lambda t: t[1] if isinstance(t, tuple) and t[0] == "opt" else t   # noqa: E731
+            if norm(ta) != "?" and norm(tb) != "?" and norm(ta) != norm(tb):
+                self.bad(e, "branches of different types")
+            oa, ob = isinstance(ta, tuple) and ta[0] == "opt", isinstance(tb, tuple) and tb[0] == "opt"
+            if oa and not ob:
+                b = f"(some {b})"
+            elif ob and not oa:
+                a, ty = f"(some {a})", tb if tb[1] != "?" else ("opt", ta)
+            return f"(if {c} then {a} else {b})", ty
+        return super().expr(e)
+
+    def boolean(self, e):
+        t, ty = self.expr(e)
+        if isinstance(ty, tuple) and ty[0] == "opt" and ty[1] in LEGACY_TRUTHY_OPT:
+            return f"{t}.isSome", "Bool"
+        if ty != "Bool":
+            self.bad(e, f"truthiness of a non-bool ({ty}) is not translated")
+        return t, ty
+
+    def compare(self, l, op, r):
+        if self.is_len_lst(l) and isinstance(r, ast.Constant) and r.value == 0 and isinstance(op, (ast.Eq, ast.NotEq, ast.Gt)):
+            empty = self.mode == "nil"
+            return ("true" if empty == isinstance(op, ast.Eq) else "false"), "Bool"
+        return super().compare(l, op, r)
+
+    def call(self, e):
+        f = e.func
+        x = self.sentinel_test(e)
+        if x is not None:
+            t, ty = self.expr(x)
+            if ty == T_LEL:
+                return f"(LegacyEl.isAnywhere {t})", "Bool"
+            if ty == ("rec", "ASTXpathElement"):
+                return "false", "Bool"
+            self.bad(e, "sentinel test on a value that is not an element")
+        if isinstance(f, ast.Name) and f.id == "isinstance":
+            if len(e.args) != 2 or e.keywords:
+                self.bad(e, "isinstance arguments")
+            a, ta = self.expr(e.args[0])
+            b, tb = self.expr(e.args[1])
+            if ta != "N" or tb != "C":
+                self.bad(e, "isinstance other than (node, class)")
+            return f"(isinstance {a} {b})", "Bool"
+        if isinstance(f, ast.Attribute) and f.attr in LEGACY_NODE_METHODS and not e.args and not e.keywords:
+            base, bt = self.expr(f.value)
+            if bt != "N":
+                self.bad(e, "method of a value that is not a (narrowed) node")
+            ln, ty = LEGACY_NODE_METHODS[f.attr]
+            return f"({ln} {base})", ty
+        if isinstance(f, ast.Name) and f.id == self.self_name:
+            prefix, rty, ptypes = self.self_call
+            if e.keywords or len(e.args) != len(ptypes):
+                self.bad(e, "self call arguments")
+            args = []
+            for a, pt in zip(e.args, ptypes):
+                t, ty = self.expr(a)
+                if pt == ("opt", "N") and ty == "N":
+                    t = f"(some {t})"
+                elif ty != pt:
+                    self.bad(a, f"self call argument of type {ty} (expected {pt})")
+                args.append(t)
+            return f"({prefix} {' '.join(args)})", rty
+        self.bad(e, "call")
+
+    def boolop(self, e):
+        """as Fn.boolop, with the constants decided (a decided left operand hides the right one, as in Python)"""
+        is_and = isinstance(e.op, ast.And)
+        vals = list(e.values)
+        stop, unit = ("false", "true") if is_and else ("true", "false")
+
+        def go(i):
+            if i == len(vals) - 1:
+                return self.boolean(vals[i])[0]
+            v = vals[i]
+            nm = self.none_test(v)
+            if nm is not None and nm[1] == (not is_and) and isinstance(self.env.get(nm[0]), tuple) and self.env[nm[0]][0] == "opt":
+                name = nm[0]
+                cur = self.lean[name]
+                saved = (self.env[name], self.lean[name])
+                self.fresh += 1
+                nv = f"{name}_{self.fresh}"
+                self.env[name], self.lean[name] = saved[0][1], nv
+                rest = go(i + 1)
+                self.env[name], self.lean[name] = saved
+                return f"(match {cur} with | none => {stop} | some {nv} => {rest})"
+            t = self.boolean(v)[0]
+            if t == stop:
+                return stop
+            rest = go(i + 1)
+            if t == unit:
+                return rest
+            return f"({t} {'&&' if is_and else '||'} {rest})"
+        return go(0), "Bool"
+
+    def narrow_test(self, test):
+        """-> (kind, name, special_when_true): kind `none` (`x is None`) / `sentinel` (`isinstance(x, <sentinel>)`), under `not`s"""
+        flip = False
+        while isinstance(test, ast.UnaryOp) and isinstance(test.op, ast.Not):
+            test, flip = test.operand, not flip
+        nm = self.none_test(test)
+        if nm is not None and isinstance(self.env.get(nm[0]), tuple) and self.env[nm[0]][0] == "opt":
+            return "none", nm[0], nm[1] != flip
+        x = self.sentinel_test(test)
+        if x is not None and isinstance(x, ast.Name) and self.env.get(x.id) == T_LEL:
+            return "sentinel", x.id, not flip
+        return None
+
+    def block(self, stmts, k):
+        if stmts and isinstance(stmts[0], ast.If):
+            s, rest = stmts[0], stmts[1:]
+
+            def branch(first):
+                return self.block(first, None) if self.always_exits(first) else self.block(list(first) + list(rest), k)
+            nt = self.narrow_test(s.test)
+            if nt is not None:
+                kind, name, special_when_true = nt
+                special, other = (s.body, s.orelse) if special_when_true else (s.orelse, s.body)
+                cur = self.lean[name]
+                sp = branch(special)
+                saved = (self.env[name], self.lean[name])
+                self.fresh += 1
+                nv = f"{name}_{self.fresh}"
+                self.env[name], self.lean[name] = (saved[0][1] if kind == "none" else ("rec", "ASTXpathElement")), nv
+                ot = branch(other)
+                self.env[name], self.lean[name] = saved
+                if kind == "none":
+                    return f"(match {cur} with\n      | none => {sp}\n      | some {nv} => {ot})"
+                return f"(match {cur} with\n      | .anywhereElement => {sp}\n      | .element {nv} => {ot})"
+            c, _ = self.boolean(s.test)
+            if c == "true":
+                return branch(s.body)
+            if c == "false":
+                return branch(s.orelse)
+        return super().block(stmts, k)
+
+
+def generate_legacy_xpath(src: Path) -> str:
+    """C20, OPTIONAL: `_match_node_xpath` of the LEGACY module (the per-element test is inline there: one function)"""
+    where = "legacy._match_node_xpath"
+    xp = K(src / "pyoak" / "legacy" / "match" / "xpath.py")
+    elem = xp.record("ASTXpathElement")
+    if xp.record(LEGACY_SENTINEL):
+        raise Unsupported(LEGACY_SENTINEL, "the sentinel class has fields")
+    if any(b for c in (xp.classes[LEGACY_SENTINEL],) for b in c.bases):
+        raise Unsupported(LEGACY_SENTINEL, "the sentinel class has base classes")
+    records = {"ASTXpathElement": ("ASTXpathElement", elem)}
+    fn = xp.funcs.get("_match_node_xpath")
+    if fn is None:
+        raise Unsupported(where, "function not found")
+    a = fn.args
+    if a.vararg or a.kwarg or a.kwonlyargs or a.defaults or a.posonlyargs or len(a.args) != 2 or fn.decorator_list:
+        raise Unsupported(where, "expects plain parameters (node, elements)")
+    node, els = [x.arg for x in a.args]
+    # the annotations decide the types: `ASTNode | None` and `list[ASTXpathElement | ASTXpathAnywhereElement]`
+    want = {f"{node}: ASTNode | None", f"{els}: list[ASTXpathElement | {LEGACY_SENTINEL}]"}
+    got = {f"{x.arg}: {ast.unparse(x.annotation) if x.annotation else '?'}" for x in a.args}
+    if got != want:
+        raise Unsupported(where, f"parameter annotations {sorted(got)} (expected {sorted(want)})")
+    for n in ast.walk(fn):
+        if isinstance(n, (ast.Assign, ast.AugAssign, ast.AnnAssign, ast.NamedExpr, ast.For)):
+            tg = [n.target] if not isinstance(n, ast.Assign) else n.targets
+            if any(isinstance(x, ast.Name) and x.id in (els, node) for t in tg for x in ast.walk(t)):
+                raise Unsupported(where, f"a parameter is re-assigned: {ast.unparse(n)[:80]}")
+    prims = "isinstance parent parent_field parent_index ancestors"
+    self_call = (f"match_node_xpath {prims} fuel", "Bool", [("opt", "N"), ("list", T_LEL)])
+    head, tl = f"{els}_0", f"{els}_tl"
+    bodies = {}
+    for mode in ("nil", "cons"):
+        env = {node: ("opt", "N")}
+        if mode == "cons":
+            env[head] = T_LEL
+        f = LFn("_match_node_xpath", env, records, self_call, els, mode, head, tl)
+        f.name = where
+        bodies[mode] = f.block(fn.body, None)
+    out = [HEADER_LX]
+    out.append(gen_record("ASTXpathElement", "(C : Type)", elem))
+    out.append("/-- an entry of the element list: `ASTXpathElement | ASTXpathAnywhereElement` -/\n"
+               "inductive LegacyEl (C : Type) where\n  | element (e : ASTXpathElement C)\n  | anywhereElement\n\n"
+               f"/-- `isinstance(x, {LEGACY_SENTINEL})` -/\n"
+               "def LegacyEl.isAnywhere {C : Type} : LegacyEl C → Bool\n  | .anywhereElement => true\n  | .element _ => false\n")
+    out.append("/-- `_match_node_xpath(node, elements)` (src/pyoak/legacy/match/xpath.py).  One unit of fuel per call depth (the Python\n"
+               "recursion climbs `parent` pointers; out of fuel = `false`) -/\n"
+               "def match_node_xpath {N C : Type} (isinstance : N → C → Bool) (parent : N → Option N)\n"
+               "    (parent_field : N → Option FieldR) (parent_index : N → Option Int) (ancestors : N → List N) :\n"
+               f"    Nat → Option N → List {T_LEL} → Bool\n"
+               "  | 0, _, _ => false\n"
+               f"  | fuel + 1, {node}, {els} =>\n"
+               f"    match {els} with\n"
+               f"    | [] =>\n      {bodies['nil']}\n"
+               f"    | {head} :: {tl} =>\n      {bodies['cons']}\n")
+    out.append("end PyOak.GenK.LX\n")
     return "\n".join(out)
 
 
@@ -1568,3 +1861,4 @@ if __name__ == "__main__":
     print(generate_eq(root))
     print(generate_is_equal(root))
     print(generate_match(root))
+    print(generate_legacy_xpath(root))
